@@ -556,6 +556,8 @@ pub struct Sim {
     pub last_hard: Option<(u64, Fault, OpKind)>,
     pub total_ops: u64,
     pub total_bytes: u64,
+    /// "the storage dies": every stream call with seq >= this fails (crash of the medium)
+    pub dead_from: Option<u64>,
 }
 
 pub type SimRef = Rc<RefCell<Sim>>;
@@ -583,6 +585,7 @@ impl Sim {
             last_hard: None,
             total_ops: 0,
             total_bytes: 0,
+            dead_from: None,
         }
     }
 
@@ -661,6 +664,17 @@ impl Sim {
             self.log(kind, pos, len, 4, 0);
             self.seq += 1;
             return Err(io::Error::new(ErrorKind::Other, BUDGET_MARKER));
+        }
+        if let Some(d) = self.dead_from {
+            if seq >= d {
+                self.fired.hard_err += 1;
+                if self.last_hard.is_none() {
+                    self.last_hard = Some((seq, Fault::Err(ErrK::Other), kind));
+                }
+                self.log(kind, pos, len, 1, 0);
+                self.seq += 1;
+                return Err(io::Error::new(ErrorKind::Other, FAULT_MARKER));
+            }
         }
         let f = self.take_fault(seq);
         match f {
